@@ -128,6 +128,7 @@ def run(ctx: Ctx) -> None:
                           key, {"unexpected": [n for n in got_names if n not in want_names][:5],
                                 "missing": [n for n in want_names if n not in got_names][:5]})
             return
+        ids_first = [names.index(n.name) for n in res.nodes]
         for n, i in zip(res.nodes, surv):
             got_in = sorted(x.name for x in n.all_input_nodes)
             want_in = sorted(names[j] for j in wiring[i])
@@ -139,6 +140,19 @@ def run(ctx: Ctx) -> None:
             ser_after = tracking.serialise_tracked(graph)
             if ser_after != ser_in:
                 ctx.violation(f"C19:{helper}:input-modified", "the copying helper modified its input graph", key)
+            # a copying helper hands out a graph of its own on every call: what the caller does to one result (selective
+            # pruning works in place) cannot show up in the next result for the same input
+            first = fg.serialise(res)
+            with ctx.guard(f"C19:{helper}:second-call", key):
+                cand_ = [n.target for n in res.nodes if n.op in ("call_function", "call_method")]
+                if cand_:
+                    prune_selected_nodes(res, cand_[: max(1, len(cand_) // 2)])
+                res2 = prune_non_float_tensors(graph) if helper == "nonfloat" else prune_same_scale_tensors(graph, rtol)
+                if res2 is res or fg.serialise(res2) != first:
+                    ctx.violation(f"C19:{helper}:aliased-result", "a second call on the same input does not return a fresh graph with "
+                                  "the same nodes (it reflects what was done to the first result)", key,
+                                  {"same_object": res2 is res, "nodes_first": len(first), "nodes_second": len(list(res2.nodes))})
+            # `res` was pruned further in place above: the model comparison below uses the serialisation taken before
         req = {"k": "graph", "nodes": ser_in, "pass": {"nonfloat": "prune_nonfloat", "same": "prune_same",
                                                         "selected": "prune_selected"}[helper]}
         if helper == "same":
@@ -146,7 +160,7 @@ def run(ctx: Ctx) -> None:
         if helper == "selected":
             req["targets"] = sorted(tnames)
         reqs.append(req)
-        cases.append((key, fg.serialise(res), [names.index(n.name) for n in res.nodes]))
+        cases.append((key, first if helper != "selected" else fg.serialise(res), ids_first))
 
     def exercise(graph, key):
         ser_in = tracking.serialise_tracked(graph)
